@@ -190,3 +190,71 @@ Proof.
 Qed.
 
 End Chain.
+
+(* ---- boolean checkers for the oracle hypotheses (for the harness) ---- *)
+Fixpoint tilesb (os : list opcode) (i j n m : nat) : bool :=
+  match os with
+  | [] => Nat.eqb i n && Nat.eqb j m
+  | o :: r => Nat.eqb (oi1 o) i && Nat.eqb (oj1 o) j && Nat.leb (oi1 o) (oi2 o) && Nat.leb (oj1 o) (oj2 o)
+              && tilesb r (oi2 o) (oj2 o) n m
+  end.
+Definition block_okb (xs ys : list value) (o : opcode) : bool :=
+  match otag o with
+  | OEqual => Nat.eqb (oi2 o - oi1 o) (oj2 o - oj1 o) &&
+              Nat.eqb (List.length (slice xs (oi1 o) (oi2 o))) (List.length (slice ys (oj1 o) (oj2 o))) &&
+              forallb (fun xy => py_eq_leaf (fst xy) (snd xy)) (combine (slice xs (oi1 o) (oi2 o)) (slice ys (oj1 o) (oj2 o)))
+  | OReplace => Nat.ltb (oi1 o) (oi2 o) && Nat.ltb (oj1 o) (oj2 o)
+  | ODelete => Nat.ltb (oi1 o) (oi2 o) && Nat.eqb (oj1 o) (oj2 o)
+  | OInsert => Nat.eqb (oi1 o) (oi2 o) && Nat.ltb (oj1 o) (oj2 o)
+  end.
+Definition valid_opsb (xs ys : list value) (os : list opcode) : bool :=
+  tilesb os 0 0 (List.length xs) (List.length ys) && forallb (block_okb xs ys) os.
+
+Lemma tilesb_sound os : forall i j n m, tilesb os i j n m = true -> tiles os i j n m.
+Proof.
+  induction os as [|o os IH]; intros i j n m H; cbn in H.
+  - apply andb_true_iff in H as [H1 H2]. apply Nat.eqb_eq in H1, H2. split; assumption.
+  - apply andb_true_iff in H as [H H5]. apply andb_true_iff in H as [H H4]. apply andb_true_iff in H as [H H3].
+    apply andb_true_iff in H as [H1 H2]. apply Nat.eqb_eq in H1, H2. apply Nat.leb_le in H3, H4.
+    cbn. repeat split; try assumption. apply IH. exact H5.
+Qed.
+
+Lemma forall2_combine (l1 l2 : list value) : List.length l1 = List.length l2 ->
+  forallb (fun xy => py_eq_leaf (fst xy) (snd xy)) (combine l1 l2) = true ->
+  Forall2 (fun x y => py_eq_leaf x y = true) l1 l2.
+Proof.
+  revert l2; induction l1 as [|x l1 IH]; intros [|y l2] L H; try discriminate L; [constructor|].
+  cbn in H. apply andb_true_iff in H as [H1 H2]. constructor; [exact H1|]. apply IH; [cbn in L; lia|exact H2].
+Qed.
+
+Lemma valid_opsb_sound xs ys os : valid_opsb xs ys os = true -> valid_ops xs ys os.
+Proof.
+  unfold valid_opsb. intros H. apply andb_true_iff in H as [H1 H2]. split; [apply tilesb_sound; exact H1|].
+  apply Forall_forall. intros o Ho. eapply forallb_forall in H2; [|exact Ho]. unfold block_okb in H2. unfold block_ok.
+  destruct (otag o).
+  - apply andb_true_iff in H2 as [H2 H5]. apply andb_true_iff in H2 as [H3 H4]. apply Nat.eqb_eq in H3, H4.
+    split; [exact H3|apply forall2_combine; assumption].
+  - apply andb_true_iff in H2 as [H3 H4]. apply Nat.ltb_lt in H3, H4. auto.
+  - apply andb_true_iff in H2 as [H3 H4]. apply Nat.ltb_lt in H3. apply Nat.eqb_eq in H4. auto.
+  - apply andb_true_iff in H2 as [H3 H4]. apply Nat.eqb_eq in H3. apply Nat.ltb_lt in H4. auto.
+Qed.
+
+Fixpoint descb (l : list path) : bool :=
+  match l with [] => true | p :: r => forallb (fun q => negb (idx_ltb p q)) r && descb r end.
+Fixpoint ascb (l : list path) : bool :=
+  match l with [] => true | p :: r => forallb (fun q => negb (idx_ltb q p)) r && ascb r end.
+
+Lemma descb_sound {A} (l : list (path * A)) : descb (map fst l) = true ->
+  ForallOrdPairs (fun x y => ~ idx_lt (fst x) (fst y)) l.
+Proof.
+  induction l as [|x l IH]; cbn; intros H; [constructor|]. apply andb_true_iff in H as [H1 H2]. constructor; [|apply IH; exact H2].
+  apply Forall_forall. intros y Hy. apply not_idx_lt. eapply forallb_forall in H1; [|apply in_map; exact Hy].
+  apply negb_true_iff in H1. exact H1.
+Qed.
+Lemma ascb_sound {A} (l : list (path * A)) : ascb (map fst l) = true ->
+  ForallOrdPairs (fun x y => ~ idx_lt (fst y) (fst x)) l.
+Proof.
+  induction l as [|x l IH]; cbn; intros H; [constructor|]. apply andb_true_iff in H as [H1 H2]. constructor; [|apply IH; exact H2].
+  apply Forall_forall. intros y Hy. apply not_idx_lt. eapply forallb_forall in H1; [|apply in_map; exact Hy].
+  apply negb_true_iff in H1. exact H1.
+Qed.
